@@ -155,6 +155,9 @@ def tool_space(ctx):
     for ll in (0, 1, 63, 64, 65, 66, 1022, 1023, 1024, 1025, 1026, 5000):
         for kind in ("hex", "hexsp", "junk", "name"):
             jobs.append(("sum-line", ll, kind))
+    # checksum lists are arbitrary bytes (other encodings, a byte-order mark, a binary file given by mistake): every byte value where a digest character is expected
+    for v in range(0, 256, 8):
+        jobs.append(("sum-bytes", v, None))
 
     # file contents: every truncation length of a small encrypted file, sizes around the I/O buffer, stdin/stdout modes, several files at once
     for n in range(0, 140):
@@ -215,6 +218,15 @@ def tool_space(ctx):
                     run([summ, flag, "a.bin"], d, "%d-byte file" % a)
                     o = run_in([summ, flag], d, "%d bytes on stdin" % a, data)
                     run_in([summ, flag, "-c"], d, "checksum list on stdin", o.replace(b"  -", b"  a.bin"))
+            elif kind == "sum-bytes":
+                with open(os.path.join(d, "data.bin"), "wb") as f:
+                    f.write(b"y" * 100)
+                for v in range(a, a + 8):
+                    for line in (bytes([v]) * 64, bytes([v]) + b"0" * 63, b"0" * 63 + bytes([v]), b"\xef\xbb\xbf"[: 1 + v % 3] + bytes([v]) + b"0" * 62):
+                        with open(os.path.join(d, "sums.txt"), "wb") as f:
+                            f.write(line + b"  data.bin\n" + b"0" * 64 + b"  data.bin\n")
+                        for flag in ("-h", "-y"):
+                            run([summ, flag, "-c", "sums.txt"], d, "checksum line with byte value %d among the digest characters" % v)
             elif kind == "crypt-name":
                 name, opts = a, b
                 data = b"hello world" * 3
